@@ -531,12 +531,27 @@ func makeClassesReady(p *slip.Package) {
 	}
 }
 
+// unready marks the class as not ready so that makeClassesReady merges the
+// supers again.
+func (c *StandardClass) unready() {
+	c.precedence = nil
+}
+
+// classChanged is called after a class has been redefined. All the classes
+// that inherit from the class, directly or indirectly, are merged again and
+// in dependency order, a class is merged only after the classes it inherits
+// from have been merged. That order is provided by makeClassesReady.
 func classChanged(cc slip.Class, p *slip.Package) {
+	var changed bool
 	for _, c := range p.AllClasses() {
-		if c.Inherits(cc) {
+		if c != cc && c.Inherits(cc) {
 			if sc, ok := c.(isStandardClass); ok {
-				sc.mergeSupers()
+				sc.unready()
+				changed = true
 			}
 		}
+	}
+	if changed {
+		makeClassesReady(p)
 	}
 }
